@@ -180,7 +180,15 @@ def normalise(it, w, hyps_valid, mod_const=False):
     probe = [z3.Int("nf!%d" % k) for k in range(nd)]
     inb = z3.And(*[z3.And(p >= 0, zi(p) < zi(d)) for p, d in zip(probe, shape)]) if nd else z3.BoolVal(True)
 
+    memo = {}
+
     def trivial(op):
+        k = id(op)
+        if k not in memo:
+            memo[k] = (op, _trivial(op))      # keep op alive so that ids are not reused
+        return memo[k][1]
+
+    def _trivial(op):
         if op[0] == "roll":
             n = shape[op[1]]
             return hyps_valid(z3.Implies(zi(n) > 0, it.mod(op[2], n) == 0) if not is_conc(n) else (zi(op[2]) % int(n) == 0))
